@@ -233,4 +233,30 @@ example :
       = [.row [['a']], .err 2 (.field 0), .row [['b']]] := by
   decide
 
+/-- **A malformed container changes nothing before it is reached**: reading rows that are followed by a container fault delivers
+the same events, makes the same calls and leaves the same counters and check states as reading the rows alone - in every mode;
+only the way the pass ends differs (`C06_container_fault`). -/
+theorem C06_fault_transparent (cfg : ReaderCfg) (cols : List Column) (checks : List (Check σ)) (n : Nat) (rows : List Row) (st : RState σ) :
+    (readLoop cfg cols checks true n rows st).events = (readLoop cfg cols checks false n rows st).events ∧
+    (readLoop cfg cols checks true n rows st).log = (readLoop cfg cols checks false n rows st).log ∧
+    (readLoop cfg cols checks true n rows st).st = (readLoop cfg cols checks false n rows st).st := by
+  induction rows generalizing n st with
+  | nil => simp [readLoop]
+  | cons row rest ih =>
+    rw [readLoop, readLoop]
+    simp only []
+    split
+    · split
+      · split
+        · have := ih (n + 1) { st with sts := (validateRow cols checks st.sts row n).1, accepted := st.accepted + 1 }
+          exact ⟨by rw [this.1], by rw [this.2.1], this.2.2⟩
+        · have := ih (n + 1) { st with sts := (validateRow cols checks st.sts row n).1, rejected := st.rejected + 1 }
+          cases cfg.mode with
+          | raise => exact ⟨rfl, rfl, rfl⟩
+          | yield => exact ⟨by rw [this.1], by rw [this.2.1], this.2.2⟩
+          | «continue» => exact ⟨this.1, by rw [this.2.1], this.2.2⟩
+      · have := ih (n + 1) { st with accepted := st.accepted + 1 }
+        exact ⟨by rw [this.1], this.2.1, this.2.2⟩
+    · exact ih (n + 1) st
+
 end Cutplace.Props
